@@ -509,7 +509,17 @@ func (e *bpEval) exec(b, pred *ssa.BasicBlock, fr *bpFrame) pval {
 			switch t := in.(type) {
 			case *ssa.Phi, *ssa.DebugRef:
 			case *ssa.BinOp:
-				fr.vals[t] = e.binop(t.Op, e.get(t.X, fr), e.get(t.Y, fr), t.Type())
+				op, x, y := t.Op, e.get(t.X, fr), e.get(t.Y, fr)
+				// unsigned x > 0 (0 < x) is x != 0, which is decided on symbolic bits
+				if _, signed, ok := typeWidth(t.X.Type()); ok && !signed {
+					if v, isC := y.constVal(); isC && v == 0 && op == token.GTR {
+						op = token.NEQ
+					}
+					if v, isC := x.constVal(); isC && v == 0 && op == token.LSS {
+						op = token.NEQ
+					}
+				}
+				fr.vals[t] = e.binop(op, x, y, t.Type())
 			case *ssa.UnOp:
 				x := e.get(t.X, fr)
 				switch t.Op {
